@@ -60,6 +60,8 @@ type Solver struct {
 	Stats     Stats
 	TimeoutMS int
 	Log       io.Writer // optional transcript
+	Parallel  bool      // z3: enable the parallel (cube-and-conquer) mode
+	Tactic    string    // z3: if set, queries use (check-sat-using <tactic>)
 	dead      bool
 }
 
@@ -98,6 +100,9 @@ func (s *Solver) prelude() {
 		s.send(fmt.Sprintf("(set-option :timeout %d)", s.TimeoutMS))
 	}
 	s.send("(set-option :produce-models true)")
+	if s.Parallel && s.Name != "cvc5" {
+		s.send("(set-option :parallel.enable true)")
+	}
 }
 
 func (s *Solver) send(line string) {
@@ -237,7 +242,11 @@ func (s *Solver) Check(extra []*Term, wantModel []*Term) (Result, map[string]uin
 	for _, r := range refs {
 		s.send("(assert " + r + ")")
 	}
-	s.send("(check-sat)")
+	if s.Tactic != "" && s.Name != "cvc5" {
+		s.send("(check-sat-using " + s.Tactic + ")")
+	} else {
+		s.send("(check-sat)")
+	}
 	res := Unknown
 	sawErr := false
 	for {
